@@ -243,6 +243,7 @@ func H_C15_actgrad() {
 			zeroOrFar(xe[k]) // exactly 0, or apart from 0 by more than the library's tie tolerance
 		}
 	}
+	warmUp(dims, false, fwd)
 	y, err := fwd(x)
 	vrt.Assert("valid input accepted", err == nil)
 	if err != nil || y == nil {
